@@ -460,6 +460,25 @@ func observeOp(b Store, op Op) (Obs, error) {
 			return o, err
 		}
 		o.OK = ok
+	case "rmv": // read the value, then remove the item the cursor is on
+		ok, err := b.Find(Ctx, op.K, false)
+		if err != nil {
+			return o, err
+		}
+		o.OK = ok
+		if !ok {
+			return o, nil
+		}
+		v, err := b.GetCurrentValue(Ctx)
+		if err != nil {
+			return o, err
+		}
+		o.Read = v
+		ok, err = b.RemoveCurrentItem(Ctx)
+		if err != nil {
+			return o, err
+		}
+		o.OK = ok
 	case "updateKey": // key-only update: the value is neither fetched nor changed
 		ok, err := b.UpdateKey(Ctx, op.K)
 		if err != nil {
